@@ -59,12 +59,28 @@ func removeCtx(ops []bop, enter int) []bop {
 	return out
 }
 
+// clauseMemo: clauses of sequences already run in this process (minimisation
+// keeps re-visiting the same short sequences).
+var clauseMemo = map[string][]string{}
+
+func clausesOf(ops []bop, via string) []string {
+	k := via + "|" + seqString(ops)
+	if c, ok := clauseMemo[k]; ok {
+		return c
+	}
+	c := runCase(ops, via).clauses
+	if len(clauseMemo) < 2000000 {
+		clauseMemo[k] = c
+	}
+	return c
+}
+
 func minimiseB(ops []bop, via, base string) ([]bop, string) {
 	still := func(c []bop) string {
 		if len(c) == 0 || !wellFormed(c, &permissive) {
 			return ""
 		}
-		return findClause(runCase(c, via).clauses, base)
+		return findClause(clausesOf(c, via), base)
 	}
 	cur := append([]bop(nil), ops...)
 	clause := still(cur)
@@ -92,6 +108,23 @@ func minimiseB(ops []bop, via, base string) ([]bop, string) {
 			c := append(append([]bop(nil), cur[:i]...), cur[i+1:]...)
 			if cl := still(c); cl != "" {
 				cur, clause, changed = c, cl, true
+			}
+		}
+		// canonical order: adjacent operations are swapped towards the
+		// smaller encoding while the violation stays (interleavings that
+		// do not matter collapse to one sequence)
+		for swapped := true; swapped; {
+			swapped = false
+			for i := 0; i+1 < len(cur); i++ {
+				a, b := cur[i], cur[i+1]
+				if !(b.k < a.k || (b.k == a.k && (b.v < a.v || (b.v == a.v && b.a < a.a)))) {
+					continue
+				}
+				c := append([]bop(nil), cur...)
+				c[i], c[i+1] = b, a
+				if cl := still(c); cl != "" {
+					cur, clause, changed, swapped = c, cl, true, true
+				}
 			}
 		}
 		// simplify arguments: kinds towards T, contexts towards cpu, leave towards ret
@@ -194,20 +227,11 @@ func judge(ops []bop, via string) (viols []*core.Violation, sig string, fires in
 		}
 		seen[base] = true
 		ck := via + " " + base
-		var mops []bop
-		mclause := ""
-		for _, mm := range minCache[ck] {
-			if embeds(mm.ops, ops) {
-				mops, mclause = mm.ops, mm.clause
-				break
-			}
-		}
-		if mops == nil {
-			mops, mclause = minimiseB(ops, via, base)
-			if mclause == "" { // not reproducible on its own: keep the case as it is
-				mops, mclause = ops, c
-			}
-			minCache[ck] = append(minCache[ck], minimal{mops, mclause})
+		_ = ck
+		clauseMemo[via+"|"+seqString(ops)] = res.clauses
+		mops, mclause := minimiseB(ops, via, base)
+		if mclause == "" { // not reproducible on its own: keep the case as it is
+			mops, mclause = ops, c
 		}
 		key := fmt.Sprintf("B via=%s seq=[%s] clause=%s", via, seqString(mops), mclause)
 		if v, ok := violCache[key]; ok {
@@ -216,7 +240,7 @@ func judge(ops []bop, via string) (viols []*core.Violation, sig string, fires in
 		}
 		mres := runCase(mops, via)
 		detail := fmt.Sprintf("rendering: %s (%s)\nminimal sequence: %s; then Runtime.Close\nviolated clauses there: %v\nlog:\n%smonitor: %s\nfound in: %s (clauses %v)",
-			via, map[string]string{"lua": "one Lua chunk, contexts through runtime.callcontext", "go": "operation by operation through the Go API, contexts through Thread.CallContext"}[via],
+			via, map[string]string{"lua": "one Lua chunk, contexts through runtime.callcontext", "go": "operation by operation through the Go API, contexts through Thread.CallContext", "gostep": "as go, plus one VM step (a no-op Lua call) before every context end and before Runtime.Close"}[via],
 			seqString(mops), mres.clauses, logString(mres.log, mops), mres.monitor, seqString(ops), res.clauses)
 		if via == "lua" {
 			detail += "\nLua program (prelude defines newT/newU/remark/...; fire(i,id) is the seam event):\n" + renderLua(mops)
@@ -249,7 +273,7 @@ func familyWanted(name string) bool {
 	return true
 }
 
-func seqFamily(name string, c bcfg, budget int) *core.Family {
+func seqFamily(name string, c bcfg, budget int, vias ...string) *core.Family {
 	var flat []bop
 	var offs []uint32
 	if !familyWanted(name) {
@@ -260,23 +284,98 @@ func seqFamily(name string, c bcfg, budget int) *core.Family {
 	get := func(i uint64) []bop { return flat[offs[i]:offs[i+1]] }
 	return &core.Family{
 		Name: name, Size: uint64(len(offs) - 1), BudgetSeconds: budget,
-		Run: func(i uint64) core.Outcome {
-			ops := get(i)
-			var o core.Outcome
-			sigs := ""
-			fires := 0
-			for _, via := range []string{"lua", "go"} {
-				vs, sig, f := judge(ops, via)
-				o.Viols = append(o.Viols, vs...)
-				sigs += via + ":" + sig + "|"
-				fires += f
-			}
-			o.Sig = core.Hash64(sigs)
-			o.NonTrivial = true
-			return o
-		},
+		Run: func(i uint64) core.Outcome { return runSeqCase(get(i), vias) },
 		Show: func(i uint64) string { return seqString(get(i)) + "; then Runtime.Close (rendered as Lua and through the Go API)" },
 	}
+}
+
+// batchFamily: two values marked in a cpu-limited context, both dropped and
+// collected (every interleaving / subset), the pending batch extracted in the
+// context itself or in a child context; the finaliser of one of them may kill
+// the context it runs in.  (Sequences longer than the generic families reach.)
+func batchFamily() *core.Family {
+	name := "B-batch"
+	if !familyWanted(name) {
+		return &core.Family{Name: name, Size: 0, Run: func(uint64) core.Outcome { return core.Outcome{Skipped: true} }}
+	}
+	kinds := []uint8{kT, kUFR, kTkill, kTspin, kTres}
+	var cases [][]bop
+	// the four events on a, b in every order / subset that keeps drop before gcfire
+	evs := []bop{{oDrop, 0, 0}, {oFire, 0, 0}, {oDrop, 1, 0}, {oFire, 1, 0}}
+	var orders [][]bop
+	var rec func(cur []bop, used [4]bool)
+	rec = func(cur []bop, used [4]bool) {
+		orders = append(orders, append([]bop(nil), cur...))
+		for i, e := range evs {
+			if used[i] || (e.k == oFire && !used[i-1]) {
+				continue
+			}
+			u := used
+			u[i] = true
+			rec(append(cur, e), u)
+		}
+	}
+	rec(nil, [4]bool{})
+	for _, ka := range kinds {
+		for _, kb := range kinds {
+			for child := 0; child < 3; child++ { // none, soft, mem
+				for _, ord := range orders {
+					if len(ord) < 2 {
+						continue
+					}
+					for split := 0; split <= len(ord); split++ { // how many of the events happen before the child is entered
+						if child == 0 && split != 0 {
+							continue
+						}
+						ops := []bop{{oEnter, 0, cCPU}, {oNew, 0, ka}, {oNew, 1, kb}}
+						ops = append(ops, ord[:split]...)
+						if child > 0 {
+							ops = append(ops, bop{oEnter, 0, []uint8{cSoft, cSoft, cMem}[child]})
+						}
+						ops = append(ops, ord[split:]...)
+						for step := 0; step < 2; step++ {
+							o2 := append([]bop(nil), ops...)
+							if step == 1 {
+								o2 = append(o2, bop{oStep, 0, 0})
+							}
+							if child > 0 {
+								o2 = append(o2, bop{oLeave, 0, lRet})
+							}
+							o2 = append(o2, bop{oLeave, 0, lRet})
+							if wellFormed(o2, &permissive) {
+								cases = append(cases, o2)
+							}
+						}
+					}
+				}
+			}
+		}
+	}
+	return &core.Family{
+		Name: name, Size: uint64(len(cases)),
+		Run:  func(i uint64) core.Outcome { return runSeqCase(cases[i], []string{"lua", "gostep"}) },
+		Show: func(i uint64) string { return seqString(cases[i]) + "; then Runtime.Close" },
+	}
+}
+
+// runSeqCase: "go" (no VM step between the last operation and a context end /
+// Runtime.Close) is the rendering in which the lost-finaliser history of the
+// pool shows in nearly every case that collects something; the other families
+// use "gostep" so that it does not mask anything else.
+func runSeqCase(ops []bop, vias []string) core.Outcome {
+	if len(vias) == 0 {
+		vias = []string{"lua", "gostep"}
+	}
+	var o core.Outcome
+	sigs := ""
+	for _, via := range vias {
+		vs, sig, _ := judge(ops, via)
+		o.Viols = append(o.Viols, vs...)
+		sigs += via + ":" + sig + "|"
+	}
+	o.Sig = core.Hash64(sigs)
+	o.NonTrivial = true
+	return o
 }
 
 func partBFamilies(tier string) []*core.Family {
@@ -286,16 +385,18 @@ func partBFamilies(tier string) []*core.Family {
 	leaves := permissive.leaves
 	if tier == "thorough" {
 		return []*core.Family{
-			seqFamily("B-seq-1val-allkinds-len7", bcfg{kinds: all, ctxKinds: ctxs, leaves: leaves, nvals: 1, maxDepth: 2, maxCtx: 2, length: 7}, 240),
+			seqFamily("B-seq-1val-allkinds-len6", bcfg{kinds: all, ctxKinds: ctxs, leaves: leaves, nvals: 1, maxDepth: 2, maxCtx: 2, length: 6}, 200, "lua", "go", "gostep"),
 			seqFamily("B-seq-2val-len6", bcfg{kinds: small, ctxKinds: ctxs, leaves: leaves, nvals: 2, maxDepth: 2, maxCtx: 2, length: 6}, 300),
 			seqFamily("B-seq-3val-T-UFR-len6", bcfg{kinds: []uint8{kT, kUFR}, ctxKinds: []uint8{cCPU, cSoft}, leaves: []uint8{lRet, lKill}, nvals: 3, maxDepth: 1, maxCtx: 1, length: 6}, 200),
+			batchFamily(),
 			ioFamily(),
 		}
 	}
 	return []*core.Family{
-		seqFamily("B-seq-1val-allkinds-len5", bcfg{kinds: all, ctxKinds: ctxs, leaves: leaves, nvals: 1, maxDepth: 2, maxCtx: 2, length: 5}, 25),
+		seqFamily("B-seq-1val-allkinds-len5", bcfg{kinds: all, ctxKinds: ctxs, leaves: leaves, nvals: 1, maxDepth: 2, maxCtx: 2, length: 5}, 30, "lua", "go", "gostep"),
 		seqFamily("B-seq-2val-len5", bcfg{kinds: small, ctxKinds: ctxs, leaves: leaves, nvals: 2, maxDepth: 2, maxCtx: 2, length: 5}, 40),
 		seqFamily("B-seq-2val-T-UFR-len6", bcfg{kinds: []uint8{kT, kUFR}, ctxKinds: []uint8{cCPU}, leaves: []uint8{lRet, lKill}, nvals: 2, maxDepth: 1, maxCtx: 1, length: 6}, 25),
+		batchFamily(),
 		ioFamily(),
 	}
 }
